@@ -129,6 +129,13 @@ def build_wf(d):
         return TableWaveform.from_table(d['ch'], [(0, float(_fr(d['v0'])), HoldInterpolationStrategy()),
                                                   (TimeType.from_fraction(dur.numerator, dur.denominator),
                                                    float(_fr(d['v1'])), LinearInterpolationStrategy())])
+    if k == 'dtable':   # table with inner entries at exact rational times (decimal stream): [[t, v, interpolation], ...]
+        from qupulse.pulses.interpolation import (HoldInterpolationStrategy, JumpInterpolationStrategy,
+                                                  LinearInterpolationStrategy)
+        strat = {'hold': HoldInterpolationStrategy(), 'jump': JumpInterpolationStrategy(),
+                 'linear': LinearInterpolationStrategy()}
+        return TableWaveform.from_table(d['ch'], [(TimeType.from_fraction(_fr(t).numerator, _fr(t).denominator),
+                                                   float(_fr(v)), strat[ip]) for t, v, ip in d['e']])
     if k == 'par':
         return MultiChannelWaveform.from_parallel([build_wf(x) for x in d['l']])
     if k == 'seq':
@@ -642,12 +649,18 @@ def _samples_json(arr):
 
 
 def _ramp_table(tree, reg):
-    """atom id -> (v0, v1) for the ramps of the recipe (ids as handed out by the describer: equal waveforms, equal id)"""
+    """atom id -> segments [t0, t1, v0, v1] (linear from v0 at local time t0 to v1 at t1, half open) of the ramps and
+    tables of the recipe (ids as handed out by the describer: equal waveforms, equal id)"""
     out = {}
 
     def wf(w):
         if w['k'] == 'ramp':
-            out[reg.atom(build_wf(w))] = [w['v0'], w['v1']]
+            out[reg.atom(build_wf(w))] = [['0', w['d'], w['v0'], w['v1']]]
+        elif w['k'] == 'dtable':
+            segs = []
+            for (t1, v1, _), (t2, v2, ip) in zip(w['e'], w['e'][1:]):
+                segs.append([t1, t2] + {'hold': [v1, v1], 'jump': [v2, v2], 'linear': [v1, v2]}[ip])
+            out[reg.atom(build_wf(w))] = segs
         elif w['k'] in ('seq', 'par'):
             for x in w['l']:
                 wf(x)
@@ -660,7 +673,7 @@ def _ramp_table(tree, reg):
         for c in t['c']:
             rec(c)
     rec(tree)
-    return sorted([k, v[0], v[1]] for k, v in out.items())
+    return sorted([k, v] for k, v in out.items())
 
 
 def _run_dec(case, prog, reg, obs):
@@ -791,9 +804,15 @@ def dec_expected(pieces, ramps, sr, n):
         if p[0] == 'C':
             out.append(p[1].get(CH['A']))
         else:
-            v0, v1 = ramps[p[1]]
-            out.append(v0 + (v1 - v0) * (t - a) / p[2])
+            out.append(_seg_volt(ramps[p[1]], t - a))
     return out
+
+
+def _seg_volt(segs, t):
+    for t0, t1, v0, v1 in segs:
+        if t < t1:
+            return v0 + (v1 - v0) * (t - t0) / (t1 - t0)
+    return None
 
 
 def dec_float_path(w, ramps, times):
@@ -804,10 +823,9 @@ def dec_float_path(w, ramps, times):
     out = np.full(len(times), np.nan)
     k = w[0]
     if k == 'A':
-        v0, v1 = (float(x) for x in ramps[w[1]])
-        d = float(F(w[2]))
-        ok = (times >= 0) & (times <= d)
-        out[ok] = v0 + (v1 - v0) * times[ok] / d
+        for t0, t1, v0, v1 in ramps[w[1]]:          # as TableWaveform.unsafe_sample: later segments overwrite
+            lo, hi = np.searchsorted(times, float(t0), 'left'), np.searchsorted(times, float(t1), 'right')
+            out[lo:hi] = float(v0) + (float(v1) - float(v0)) * (times[lo:hi] - float(t0)) / (float(t1) - float(t0))
         return out
     if k == 'C':
         out[:] = float(dict((c, F(v)) for c, v in w[2])[CH['A']])
@@ -837,7 +855,7 @@ def dec_verdict(case, obs):
     """(why the property fails on this observation | None, explained by the reference float path?)"""
     import numpy as np
     sr = F(case['sr'])
-    ramps = {k: (F(a), F(b)) for k, a, b in obs['ramps']}
+    ramps = {k: [tuple(F(x) for x in sg) for sg in segs] for k, segs in obs['ramps']}
     n = obs['n_times']
     exp = dec_expected(_tree_pieces(obs['input']), ramps, sr, n)
     why = None
@@ -940,7 +958,8 @@ def to_coq(case, obs):
         o = '(ObsOk %s %s %s %s)' % (g_tree(obs['after']), gQ(F(obs['dur'])), gZ(dp), gbool(bool(obs['bal'])))
     if case['kind'] == 'dec':
         gs = lambda l: glist(lambda x: gopt(lambda y: gQ(F(y)), x), l)
-        rt = glist(lambda r: '(%d%%N, (%s, %s))' % (r[0], gQ(F(r[1])), gQ(F(r[2]))), obs['ramps'])
+        rt = glist(lambda r: '(%d%%N, %s)' % (r[0], glist(lambda sg: '(%s, %s, %s, %s)' % tuple(gQ(F(x)) for x in sg), r[1])),
+                   obs['ramps'])
         return '(CDec %s %s %s %s %s %s %s %s)' % (g_tree(obs['input']), path, g_op(lop), o, gQ(F(case['sr'])), rt,
                                                    gs(obs['sb']), gs(obs['sa']))
     if case.get('volatile'):
@@ -1243,7 +1262,7 @@ def _json_wf_dur(w):
     k = w['k']
     if k in ('const', 'ramp'):
         return F(w['d'])
-    if k == 'table':
+    if k in ('table', 'dtable'):
         return F(w['e'][-1][0])
     if k == 'par':
         return _json_wf_dur(w['l'][0])
@@ -1829,9 +1848,27 @@ def gen_cases(rng, tier, ctx):
 DEC_VALS = ['0', '1', '-1', '1/2', '2', '-1/2', '3', '1/4']
 
 
+def g_dec_table(rng, den, ks):
+    """table with 3-4 entries at multiples of 1/den; the value jumps at every inner entry (a sample on an entry that is
+    answered from the wrong segment differs grossly)"""
+    ts = [F(0)]
+    for _ in range(rng.choice([2, 2, 3])):
+        ts.append(ts[-1] + F(rng.choice(ks), den))
+    ent = [['0', rng.choice(DEC_VALS), 'hold']]
+    for t in ts[1:]:
+        prev = ent[-1][1]
+        ip = rng.choice(['hold', 'hold', 'linear', 'jump'])
+        v = rng.choice([x for x in DEC_VALS if x != prev])
+        ent.append([str(t), v, ip])
+    return {'k': 'dtable', 'ch': 'A', 'e': ent}
+
+
 def g_dec_leafwf(rng, den, ks):
     d = F(rng.choice(ks), den)
-    if rng.random() < 0.85:
+    r = rng.random()
+    if r < 0.25:
+        return g_dec_table(rng, den, ks)
+    if r < 0.87:
         v0, v1 = rng.sample(DEC_VALS, 2)          # the end value differs from the start value
         return {'k': 'ramp', 'ch': 'A', 'd': str(d), 'v0': v0, 'v1': v1}
     return {'k': 'const', 'd': str(d), 'v': {'A': rng.choice(DEC_VALS)}}
